@@ -318,6 +318,13 @@ impl<W: WorldOps> Engine<W> {
             }
         }
         disarm();
+        if let Some(last) = self.rep.trace.last() {
+            if last.contains("FAULT") {
+                // distinct fault points: operation x kind x k (world ids stripped)
+                let h = last.split_once(' ').map(|x| x.1).unwrap_or("").bytes().fold(crate::report::FNV0, |h, b| crate::report::fnv(h, b as u64));
+                self.rep.seen("fault_points", h);
+            }
+        }
         touched
     }
 }
